@@ -194,6 +194,12 @@ def gen_ops(ck):
     # must raise and clean up - or, should a later version store it elsewhere, the file must give every component back
     ops.append({"op": "h5_write_embed", "doc": {"id": "big", "iaf": 800, "networks": [{"id": "n", "pops": [{"id": "p0", "size": 2}]}]},
                 "faults": [], "must_raise": True, "or_roundtrip": True})
+    # scale: one large array morphology (6000 segments) with a few user-assigned segments: a write that walks it - failing
+    # by injection, or naturally because the embedded XML exceeds an HDF5 attribute - must leave the user's segments alone
+    d_big_am = {"id": "bigam", "am_cells": [{"id": "c0", "n": 6001, "mid": "m0", "edited": [5, 10, 4500]}],
+                "networks": [{"id": "n", "pops": [{"id": "p0", "comp": "c0", "size": 1}]}]}
+    ops.insert(0, {"op": "xml_write_path", "doc": d_big_am, "faults": ck.n(3, 12)})
+    ops.insert(1, {"op": "h5_write_embed", "doc": d_big_am, "faults": [], "must_raise": True, "or_roundtrip": True})
     # two networks: the HDF5 layout (one group "network") cannot hold them
     ops.append({"op": "h5_write_embed", "doc": gen_doc(rng, nets=2), "faults": [], "must_raise": True})
     # the known finding: default ids are written into the caller's document
@@ -310,6 +316,84 @@ def chain_of(entries, first, frames):
             chain.append((owner, f))
             cur = owner
     return [(n, f, sites_at(entries[n], f)) for n, f in chain]
+
+
+CONFIG_CASES = [
+    # merges of >= 3 elements into ONE member list: from includes, and from the XML embedded in an HDF5 file
+    {"op": "file_xml_inc", "doc": {"id": "c1", "iaf": 1, "syn": 1, "includes": ["ia.nml", "ib.nml", "ic.nml", "id.nml", "ie.nml"]}},
+    {"op": "h5_load", "doc": {"id": "c2", "iaf": 5, "syn": 4, "pg": 3, "embed": True,
+                              "networks": [{"id": "n", "pops": [{"id": "p0", "size": 2}, {"id": "p1", "instances": 3}]}]}},
+    {"op": "file_h5", "doc": {"id": "c3", "iaf": 4, "syn": 3, "embed": True, "networks": [{"id": "n", "pops": [{"id": "p0", "size": 2}]}]}},
+    {"op": "string_xml", "doc": {"id": "c4", "iaf": 3, "syn": 2}},
+    {"op": "xml_write_path", "doc": {"id": "c5", "iaf": 3, "syn": 2, "pg": 2, "notes": "n",
+                                     "networks": [{"id": "n", "pops": [{"id": "p0", "instances": 3, "props": {"a": "1", "b": "2"}}]}]}},
+    {"op": "h5_write_embed", "doc": {"id": "c6", "iaf": 3, "syn": 3, "networks": [{"id": "n", "pops": [{"id": "p0", "size": 2, "props": {"a": "1"}}]}]}},
+    {"op": "h5_load_opt", "doc": {"id": "c7", "iaf": 3, "embed": True, "networks": [{"id": "n", "pops": [{"id": "p0", "instances": 3}]}]}},
+]
+
+
+def other_configurations(ck):
+    """the interpreter's configuration is not input: the same reads / writes in fresh processes with other hash seeds
+    (set / dict-key iteration order), from another working directory and under `python -O` must give the same documents
+    - WITH the order of every list - and the same written XML"""
+    import concurrent.futures as cf
+    variants = [("default", {}), ("PYTHONHASHSEED=1", {"extra_env": {"PYTHONHASHSEED": "1"}}),
+                ("PYTHONHASHSEED=3,cwd=/", {"extra_env": {"PYTHONHASHSEED": "3"}, "cwd": "/"}),
+                ("PYTHONHASHSEED=7", {"extra_env": {"PYTHONHASHSEED": "7"}}), ("python-O", {"pyflags": ["-O"]})]
+
+    def one(v):
+        try:
+            return ck.impl("c08_impl.py", {"config_cases": CONFIG_CASES}, timeout=300, **v[1]).get("config")
+        except Exception as e:  # noqa: BLE001
+            return "ERR " + str(e)[-800:]
+
+    with cf.ThreadPoolExecutor(5) as ex:
+        outs = list(ex.map(one, variants))
+    ref = outs[0]
+    for (label, _), o in zip(variants, outs):
+        ck.oblige("impl:c08_impl.py:configuration[%s]" % label, isinstance(o, list), o if isinstance(o, str) else "", kind="correspondence")
+    if not isinstance(ref, list):
+        return
+    for (label, _), o in zip(variants[1:], outs[1:]):
+        if not isinstance(o, list):
+            continue
+        for case, a, b in zip(CONFIG_CASES, ref, o):
+            ck.count(1, nontrivial_key=["configuration", label, case["op"]])
+            ck.tally("other-interpreter-configuration")
+            if a["output"] != b["output"]:
+                x, y = a["output"] or "", b["output"] or ""
+                i = next((i for i, (p, q) in enumerate(zip(x, y)) if p != q), min(len(x), len(y)))
+                ck.witness("C08:interpreter-configuration:%s:%s" % (label.split(",")[0], case["op"]),
+                           "under %s the result of %s differs from the default interpreter's (documents are compared with list order)"
+                           % (label, case["op"]), input={"config_case": case, "configuration": label},
+                           expected=x[max(0, i - 150):i + 150], observed=y[max(0, i - 150):i + 150])
+
+
+def many_failures(ck):
+    """"the same call succeeds once the cause is removed" after MANY failures in one process: 40 failed reads of each
+    kind, then the intact input must load and equal what a process without failures loads"""
+    spec = {"doc": {"id": "rp", "iaf": 2, "syn": 1, "networks": [{"id": "n", "pops": [{"id": "p0", "size": 2}]}],
+                    "includes": ["ra.nml", "rb.nml", "rc.nml"]}}
+    try:
+        fresh = ck.impl("c08_impl.py", {"repeat": dict(spec, n=0)}, timeout=300)["repeat"]
+        many = ck.impl("c08_impl.py", {"repeat": dict(spec, n=ck.n(40, 120))}, timeout=600)["repeat"]
+    except Exception as e:  # noqa: BLE001
+        ck.oblige("impl:c08_impl.py:many-failures", False, str(e)[-1200:], kind="correspondence")
+        return
+    if "harness_error" in fresh or "harness_error" in many:
+        ck.oblige("impl:c08_impl.py:many-failures", False, str(fresh.get("harness_error") or many.get("harness_error")), kind="correspondence")
+        return
+    ck.oblige("impl:c08_impl.py:many-failures", True, kind="correspondence")
+    for a, b in zip(fresh["cases"], many["cases"]):
+        ck.count(b["failed_reads"] + 1, nontrivial_key=["many-failures", b["kind"], b["failed_reads"] > 0])
+        ck.tally("failed-reads-before-retry:" + b["kind"], b["failed_reads"])
+        if b["failed_reads"] < many["n"]:
+            ck.oblige("harness:many-failures:%s" % b["kind"], False, "only %d of %d reads failed" % (b["failed_reads"], many["n"]), kind="harness")
+        if a["after"] != b["after"]:
+            ck.witness("C08:read:retry-fails-after-many-failures:" + b["kind"],
+                       "after %d failed reads (%s) in one process the intact input %s" % (b["failed_reads"], b["kind"],
+                       "raises: " + b["after"][1] if b["after"][0] == "raised" else "loads as a different document"),
+                       input={"repeat": dict(spec, n=many["n"]), "kind": b["kind"]}, expected=a["after"][1][:300], observed=b["after"][1][:300])
 
 
 def run(ck):
@@ -528,6 +612,8 @@ def run(ck):
                         "observation not among the predictions for a fault at %s" % chunk[j][1]["sites"],
                         {"observed(raised,left_open,doc_changed)": chunk[j][1]["observed"], "statement": chunk[j][1]["statement"]})
     ck.extra["fault_cases_compared_with_model"] = len(cases)
+    other_configurations(ck)
+    many_failures(ck)
     # ---------------------------------------------------------------- truncation
     tcases = []
     for t in res["truncate"]:
@@ -592,6 +678,10 @@ def replay(ck, data):
         if str(data.get("key", "")).endswith("failure-swallowed"):
             bad = bad or any(r.get("fired") and not r.get("raised") for r in recs)
         return 1 if bad else 0
+    if "config_case" in inp or "repeat" in inp:
+        other_configurations(ck) if "config_case" in inp else many_failures(ck)
+        print(json.dumps({"stored": inp, "witnesses_now": ck.witnesses[:3]}, indent=1, default=str)[:6000])
+        return 1 if ck.witnesses else 0
     if "offset" in inp:
         res = ck.impl("c08_impl.py", {"truncate": [{"doc": inp["doc"], "offsets": "all", "augment": inp.get("augment", False)}]})
         print(json.dumps({"stored": inp, "now": {k: v for k, v in res["truncate"][0].items() if k not in ("tokens", "token_cuts")}},
